@@ -144,7 +144,7 @@ func (g *Gen) MixinDoc(ids *idPool) M {
 						// ids: unique within the document, from a small pool so that documents collide
 						for tries := 0; tries < 20; tries++ {
 							// (ids that end in Mixin<N> while their stem "list" is no id anywhere: within the premise of C18)
-							id := g.pick([]string{"getA", "getB", "listPets", "x", "delPet", "opt", "createThing", "listMixin0", "listMixin1"})
+							id := g.pick([]string{"getA", "getB", "listPets", "x", "delPet", "opt", "createThing", "listMixin0", "listMixin1", "get%dItems", "50%off"})
 							if !ids.used[id] {
 								ids.used[id] = true
 								op["operationId"] = id
